@@ -753,15 +753,15 @@ Section Sound.
   (** the renewal queue of a pass *)
   Lemma fold_submit_prefix olds js :
     exists extra, fold_left (fun js old => submit_renew js (chead old) old) olds js = js ++ extra /\
-                  forall j, In j extra -> exists old, j = Job (chead old) JRenew (Some old) Queued.
+                  forall j, In j extra -> exists old, In old olds /\ j = Job (chead old) JRenew (Some old) Queued.
   Proof.
     revert js; induction olds as [|o r IH]; cbn; intros js.
     - exists []. rewrite app_nil_r; split; auto. intros j [].
     - destruct (IH (submit_renew js (chead o) o)) as (extra & E & H). rewrite E.
       unfold submit_renew. destruct (existsb _ js).
-      + exists extra; auto.
+      + exists extra; split; auto. intros j Hj. destruct (H j Hj) as (old & Ho & ->); eauto.
       + exists (Job (chead o) JRenew (Some o) Queued :: extra). rewrite <- app_assoc. split; auto.
-        intros j [<-|Hj]; eauto.
+        intros j [<-|Hj]; eauto. destruct (H j Hj) as (old & Ho & ->); eauto.
   Qed.
 
   Lemma existsb_submit_mono n js m old :
@@ -811,13 +811,16 @@ Section Sound.
     pose proof (take_pass_equiv p _ _ P) as T.
     (* the job list grows by queued renewal jobs only *)
     assert (J : exists extra, jobs s' = jobs s ++ extra /\
-                  forall j, In j extra -> exists old, j = Job (chead old) JRenew (Some old) Queued).
+                  forall j, In j extra -> exists old, j = Job (chead old) JRenew (Some old) Queued /\
+                    forall q r, take_pass p (passes s) = Some (q, r) -> In old (prenew q)).
     { subst s'. cbn. unfold pass_act. comp. destruct (take_pass p (passes s)) as [[q r]|]; comp.
-      - apply fold_submit_prefix.
+      - destruct (fold_submit_prefix (prenew q) (jobs s)) as (extra & E & H). exists extra; split; auto.
+        intros j Hj. destruct (H j Hj) as (old & Ho & ->). exists old; split; auto.
+        intros q0 r0 Eq; injection Eq as <- <-; auto.
       - exists []. rewrite app_nil_r. split; auto. intros j []. }
     destruct J as (extra & EJ & Hx0).
     assert (Hx : forall j, In j extra -> job_code j mod 6 = 3).
-    { intros j Hj. destruct (Hx0 j Hj) as (old & ->). rewrite code_mod6_job. reflexivity. }
+    { intros j Hj. destruct (Hx0 j Hj) as (old & -> & _). rewrite code_mod6_job. reflexivity. }
     assert (Cnt : forall x, count x (o_jobs (observe s')) =
                             count x (o_jobs (observe s)) + count x (map job_code extra)).
     { intros x. cbn [o_jobs Model.observe].
@@ -835,7 +838,7 @@ Section Sound.
     - destruct (take_pass p pend) as [[q' r']|] eqn:T1, (take_pass p (passes s)) as [[q r]|] eqn:T2;
         try contradiction.
       + destruct T as [(_ & Pre & Ren) _].
-        apply andb_true_iff; split; apply forallb_forall; intros c Hc.
+        rewrite !andb_true_iff; repeat split; apply forallb_forall; intros c Hc.
         * apply Pre in Hc.
           destruct (pass_act_adopts od idue s p q r c W T2 Hc) as (st & S & _ & I1 & I2 & _). fold s' in I1, I2.
           assert (Hk : chead c < k).
@@ -849,6 +852,15 @@ Section Sound.
           apply mem_observe_cache in M. contradiction.
         * apply Ren in Hc. rewrite renew_job_for_obs. subst s'. cbn. unfold pass_act. comp.
           rewrite T2. comp. apply fold_submit_has; auto.
+        * (* c is a job code here *)
+          rewrite Cnt.
+          destruct (existsb (fun c0 => chead c0 =? code_name c) (prenew q')) eqn:X; [apply orb_true_r|].
+          apply orb_true_iff; left. apply Nat.leb_le. rewrite (count_zero c (map job_code extra)); [lia|].
+          intros y Hy. apply in_map_iff in Hy as (j & <- & Hj). intros <-.
+          destruct (Hx0 j Hj) as (old & -> & Hold). specialize (Hold q r eq_refl). apply Ren in Hold.
+          assert (Y : existsb (fun c0 => chead c0 =? code_name (job_code (Job (chead old) JRenew (Some old) Queued))) (prenew q') = true).
+          { apply existsb_exists. exists old. split; auto. rewrite code_name_job. cbn. apply Nat.eqb_refl. }
+          congruence.
       + assert (E : s' = with_err s false).
         { subst s'. cbn. unfold pass_act. comp. rewrite T2. reflexivity. }
         rewrite same_cache_obs, same_jobs_obs by (rewrite E; reflexivity). reflexivity.
